@@ -198,7 +198,7 @@ impl Check for Determinism {
             0..=4,
         );
         prop_oneof![
-            1 => crate::generators::task::choices(180).prop_map(DetCase::External),
+            1 => crate::generators::task::choices(184).prop_map(DetCase::External),
             // up to 14 rules: a command that handled the formulas of a longer theory concurrently
             // would have to keep their order
             1 => (ga::program(&ga::AspCfg { max_rules: 14, ..c.clone() }), prop::sample::select(Transform::all())).prop_map(|(p, t)| DetCase::Translate(p, t)),
@@ -238,6 +238,17 @@ impl Check for Determinism {
                         }
                     }
                 }
+                // half of the tasks come with a generated proof outline (definitions, lemmas, inductive lemmas
+                // with several parameters); choice vectors shorter than 184 predate this
+                let mut outline = ops::empty_outline();
+                if choices.len() >= 184 && c.aux(74, 2) == 0 {
+                    let mut oc = Chooser::new(choices.iter().rev().cloned().collect());
+                    let entries = crate::checks::c13::outline(&mut oc, &task);
+                    let candidate = fol::Specification { formulas: entries.iter().map(|e| e.formula.clone()).collect() };
+                    if ops::external_problems(&task, &candidate, &flags, false).is_ok() {
+                        outline = candidate;
+                    }
+                }
                 let dir = cli::scratch_dir("c18x");
                 let mut files: Vec<String> = vec![];
                 match (&task.left_program, &task.left_spec) {
@@ -255,6 +266,10 @@ impl Check for Determinism {
                 files.push(dir.join("b.lp").to_string_lossy().to_string());
                 std::fs::write(dir.join("u.ug"), safe_print::user_guide(&task.user_guide, &Style::plain())).unwrap();
                 files.push(dir.join("u.ug").to_string_lossy().to_string());
+                if !outline.formulas.is_empty() {
+                    std::fs::write(dir.join("o.po"), safe_print::specification(&outline, &Style::plain())).unwrap();
+                    files.push(dir.join("o.po").to_string_lossy().to_string());
+                }
                 let mut snapshots = vec![];
                 let mut streams: Vec<(String, String)> = vec![];
                 for i in 0..3 {
@@ -294,7 +309,11 @@ impl Check for Determinism {
                     snapshots.push((r.code, cli::snapshot_dir(&out)));
                 }
                 let _ = std::fs::remove_dir_all(&dir);
-                let description = crate::checks::problems::describe_external(&task);
+                let description = format!(
+                    "{}{}",
+                    crate::checks::problems::describe_external(&task),
+                    if outline.formulas.is_empty() { String::new() } else { format!("\n  outline: {}", safe_print::specification(&outline, &Style::plain())) }
+                );
                 if snapshots.iter().any(|s| *s != snapshots[0]) {
                     return Outcome::fail(
                         "nondeterministic-problems",
@@ -311,7 +330,7 @@ impl Check for Determinism {
                     );
                 }
                 // the library path (hooks) must produce the same files as the command line
-                if let Ok((problems, _)) = ops::external_problems(&task, &ops::empty_outline(), &flags, false) {
+                if let Ok((problems, _)) = ops::external_problems(&task, &outline, &flags, false) {
                     let mut lib: Vec<(String, String)> = problems.iter().map(|p| (format!("{}.p", p.name), p.text.clone())).collect();
                     lib.sort();
                     if snapshots[0].0 == Some(0) && lib != snapshots[0].1 {
